@@ -166,6 +166,9 @@ fn recover_dir(dir: &std::path::Path) -> Result<G, String> {
 struct St {
     hist: Vec<Op>,
     model: G,
+    /// implementation state the reference does not have but later requests can depend on:
+    /// the tenant's usage counters (nodes, edges) of replica 0 after the history
+    residue: (usize, usize),
 }
 struct M {
     replicas: usize,
@@ -174,15 +177,17 @@ struct M {
 
 /// Apply the whole history to `replicas` fresh state machines, close, reopen, recover.
 /// Returns (violations, reference state).
-fn run_history(hist: &[Op], replicas: usize, verbose: bool) -> (Vec<(String, String)>, G) {
+fn run_history(hist: &[Op], replicas: usize, verbose: bool) -> (Vec<(String, String)>, G, (usize, usize)) {
     let mut vio: Vec<(String, String)> = vec![];
     let rt = tokio::runtime::Builder::new_current_thread().enable_all().build().expect("runtime");
     let dirs: Vec<TmpDir> = (0..replicas).map(|_| TmpDir::new()).collect();
     let mut model = G::default();
     let mut model_noupd = G::default();
     let mut acked_updates: Vec<Op> = vec![];
+    let mut residue = (0usize, 0usize);
     {
-        let sms: Vec<GraphStateMachine> = dirs.iter().map(|d| GraphStateMachine::new(Arc::new(PersistenceManager::new(&d.0).expect("PersistenceManager::new on a fresh directory")))).collect();
+        let pms: Vec<Arc<PersistenceManager>> = dirs.iter().map(|d| Arc::new(PersistenceManager::new(&d.0).expect("PersistenceManager::new on a fresh directory"))).collect();
+        let sms: Vec<GraphStateMachine> = pms.iter().map(|pm| GraphStateMachine::new(pm.clone())).collect();
         for op in hist {
             let mut errs = vec![];
             for (ri, sm) in sms.iter().enumerate() {
@@ -190,7 +195,7 @@ fn run_history(hist: &[Op], replicas: usize, verbose: bool) -> (Vec<(String, Str
                     Ok(r) => r,
                     Err(p) => {
                         vio.push(("apply:panic".into(), format!("replica {ri}: apply({op:?}) panicked: {p}")));
-                        return (vio, model);
+                        return (vio, model, residue);
                     }
                 };
                 let is_err = matches!(resp, Response::Error { .. });
@@ -220,6 +225,9 @@ fn run_history(hist: &[Op], replicas: usize, verbose: bool) -> (Vec<(String, Str
                 }
             }
         }
+        if let Ok(u) = pms[0].tenants().get_usage(TENANT) {
+            residue = (u.node_count, u.edge_count);
+        }
     } // state machines and their stores are closed here
     let mut got: Vec<G> = vec![];
     for (ri, d) in dirs.iter().enumerate() {
@@ -227,11 +235,11 @@ fn run_history(hist: &[Op], replicas: usize, verbose: bool) -> (Vec<(String, Str
             Ok(Ok(g)) => got.push(g),
             Ok(Err(e)) => {
                 vio.push(("recover:error".into(), format!("replica {ri}: {e}")));
-                return (vio, model);
+                return (vio, model, residue);
             }
             Err(p) => {
                 vio.push(("recover:panic".into(), format!("replica {ri}: {p}")));
-                return (vio, model);
+                return (vio, model, residue);
             }
         }
     }
@@ -260,15 +268,15 @@ fn run_history(hist: &[Op], replicas: usize, verbose: bool) -> (Vec<(String, Str
             vio.push(("unclassified:recover_mismatch".into(), format!("recovered {:?}; reference {:?}", got[0], model)));
         }
     }
-    (vio, model)
+    (vio, model, residue)
 }
 
 impl Model for M {
     type Op = Op;
     type State = St;
-    type Key = G;
+    type Key = (G, (usize, usize));
     fn init(&self) -> St {
-        St { hist: vec![], model: G::default() }
+        St { hist: vec![], model: G::default(), residue: (0, 0) }
     }
     fn ops(&self, _st: &St) -> Vec<Op> {
         alphabet()
@@ -279,12 +287,13 @@ impl Model for M {
             // the live replicas are materialised only when a transition is checked
             return Step::ok("");
         }
-        let (vio, model) = run_history(&st.hist, self.replicas, self.verbose);
+        let (vio, model, residue) = run_history(&st.hist, self.replicas, self.verbose);
         st.model = model;
+        st.residue = residue;
         Step { violations: vio, outcome: "applied".into() }
     }
-    fn key(&self, st: &St) -> G {
-        st.model.clone()
+    fn key(&self, st: &St) -> (G, (usize, usize)) {
+        (st.model.clone(), st.residue)
     }
 }
 
@@ -296,7 +305,7 @@ impl Model for M {
 fn explore_flat(m: &M, max_depth: usize, mut on_violation: impl FnMut(hx::Violation<Op>)) -> hx::Stats {
     use rayon::prelude::*;
     let mut stats = hx::Stats::default();
-    let mut seen: std::collections::HashSet<G> = std::collections::HashSet::new();
+    let mut seen: std::collections::HashSet<(G, (usize, usize))> = std::collections::HashSet::new();
     seen.insert(m.key(&m.init()));
     stats.states = 1;
     stats.per_depth_states.push(1);
@@ -306,7 +315,7 @@ fn explore_flat(m: &M, max_depth: usize, mut on_violation: impl FnMut(hx::Violat
             break;
         }
         let tasks: Vec<(usize, Op)> = frontier.iter().enumerate().flat_map(|(i, h)| m.ops(&hx::rebuild(m, h)).into_iter().map(move |o| (i, o))).collect();
-        let results: Vec<(Vec<Op>, Option<G>, Step)> = tasks
+        let results: Vec<(Vec<Op>, Option<(G, (usize, usize))>, Step)> = tasks
             .par_iter()
             .map(|(i, op)| {
                 let mut st = hx::rebuild(m, &frontier[*i]);
@@ -355,7 +364,7 @@ fn main() {
             let hist: Vec<Op> = doc["witness"]["history"].as_array().unwrap().iter().map(|s| *alphabet().iter().find(|o| format!("{:?}", o) == s.as_str().unwrap()).expect("op")).collect();
             let r = doc["witness"]["replicas"].as_u64().unwrap_or(3) as usize;
             println!("history {:?} on {r} replicas", hist);
-            let (vio, _) = run_history(&hist, r, true);
+            let (vio, _, _) = run_history(&hist, r, true);
             for (sig, msg) in vio {
                 println!("  MISMATCH [{sig}] {msg}");
                 ctx.violation(&sig, msg, doc["witness"].clone());
@@ -370,7 +379,7 @@ fn main() {
         hx::report(ctx, &stats, "Request::{CreateNode{p:0}, CreateEdge{1->2,w:0} (endpoints may be missing), DeleteNode, DeleteEdge, UpdateNodeProperties{p:1}, UpdateEdgeProperties{w:1}, UpdateNodeProperties{p:0,q:2}, UpdateEdgeProperties{w:0,v:2}} x ids {1,2}");
         ctx.cov("replicas", replicas as u64);
         println!("hx: {} states, {} transitions, depth {}", stats.states, stats.transitions, stats.max_depth);
-        ctx.assume("every explored history is applied from scratch to fresh replicas, which are then closed, reopened and recovered; the dedup key is the reference state (the implementation keeps nothing else that recover can observe: usage counters stay far below the default quotas)");
+        ctx.assume("every explored history is applied from scratch to fresh replicas, which are then closed, reopened and recovered; the dedup key is the reference state plus the tenant's usage counters of replica 0 (implementation residue that later requests can depend on: a deletion of a missing id decrements them)");
         ctx.assume("re-creating an existing id replaces it; deleting or updating a missing id is answered without Error and has no effect; referential integrity is not part of the persistence-level model");
         ctx.assume("an update request merges its keys into the entity's properties (the state machine's documented read-modify-write); the two-key update repeats the creation value of one key and adds a new key; wall-clock fields and versions are not compared");
         let _ = std::fs::remove_dir_all(root());
